@@ -3,3 +3,8 @@ claim('C10', 'exploration',
       'Trusted: pysam/htslib, pandas. Coordinates non-negative, 1<=s<=b. Absence of violations outside the explored cases is not established.',
       'exhaustive enumeration + property-based testing (Hypothesis) against an interval-arithmetic reference model and an independent recount',
       'DESIGN.md section 4, C10')
+claim('C17', 'exploration',
+      'Exhaustive enumeration of blacklisted_binning over small regions (all blacklists of <=2 intervals, all bin sizes, 8 fragment sizes) plus Hypothesis-generated larger blacklists, genome-scale numbers, BED-file driven blacklisted_binning_contigs, fill_range and bp_chunked, each against interval arithmetic (exact partition, size bound, window containment and the documented window extent).',
+      'Trusted: Python integers. Blacklist intervals half-open with start<end. Complete only on the stated small domain.',
+      'exhaustive enumeration + property-based testing (Hypothesis) against an interval-arithmetic reference model',
+      'DESIGN.md section 4, C17')
